@@ -117,6 +117,7 @@ func c03Run(c *Ctx) {
 	if c.Thorough() {
 		layers = append(layers, sweepLayer{"L2", GenOpts{OneGate: true, LeafSet: 2}, 2, fs[:3]})
 	}
+	layers = append(layers, sweepLayer{"scale", GenOpts{Scale: true, ScaleThorough: c.Thorough()}, 0, fs[:3]})
 	sweep(c, layers, func(sc *sweepCase) bool {
 		if sc.C.Root.HasDup() {
 			return false
